@@ -1,7 +1,7 @@
 (* Extraction of the executable model to OCaml.  ExtrOcamlBasic only: bool, option, unit,
    list, prod, sumbool map to OCaml's; Z, positive, N, nat, comparison stay Coq datatypes. *)
 From Coq Require Import ExtrOcamlBasic.
-From S3db Require Import Base KeyOrder RowMerge Tree Store KvProto Inst Stmt SqlSession NodeCodec Sched Client Crypto Schema.
+From S3db Require Import Base KeyOrder RowMerge Tree Store KvProto Inst Stmt SqlSession NodeCodec Sched Client Crypto Schema Mast.
 From S3db.spec Require Import SpecMerge.
 Extraction Language OCaml.
 Extraction "model.ml"
@@ -11,7 +11,7 @@ Extraction "model.ml"
   KeyOrder.order KeyOrder.order_exact KeyOrder.layer KeyOrder.crc64 KeyOrder.fmt_float_b KeyOrder.safe_key KeyOrder.is_nan_key KeyOrder.order_t
   RowMerge.merge_rows RowMerge.merge_values RowMerge.last_write_wins RowMerge.abs_row RowMerge.crdt_update
   RowMerge.crdt_visible RowMerge.crdt_is_tombstoned RowMerge.mk_set RowMerge.mk_tomb
-  Tree.t_get Tree.t_insert Tree.t_delete Tree.merge_into Tree.lww_f
+  Tree.t_get Tree.t_insert Tree.t_delete Tree.t_ceil Tree.merge_into Tree.lww_f
   Store.run Store.empty_bucket Store.no_faults Store.o_names
   KvProto.open KvProto.commit KvProto.kv_set KvProto.kv_tombstone KvProto.kv_get KvProto.kv_is_tombstoned
   KvProto.kv_is_dirty KvProto.kv_remove_tombstones KvProto.kv_roots KvProto.kv_dump KvProto.kv_diff
@@ -20,4 +20,6 @@ Extraction "model.ml"
   SqlSession.sql_begin SqlSession.sql_commit SqlSession.sql_rollback SqlSession.sql_select SqlSession.sql_version SqlSession.sql_vacuum
   SqlSession.sql_set_write_time SqlSession.finish_rollback SqlSession.find_rows SqlSession.sql_set_deadline SqlSession.sql_changes
   SpecMerge.interp Stmt.kv_vacuum NodeCodec.node_roundtrip Sched.sched_run Sched.finished Store.bind Client.client_reader Client.client_merger Client.client_writer Crypto.encrypt Crypto.decrypt Crypto.derive_key Schema.convert_schema Schema.table_args
+  Mast.mast_empty Mast.mast_load Mast.mast_insert Mast.mast_get Mast.mast_delete Mast.mast_flat Mast.shape_l
+  Mast.mast_cursor Mast.c_min Mast.c_max Mast.c_ceil Mast.c_walk_fwd Mast.c_walk_bwd Mast.c_get
   Inst.cfg_plain Inst.cfg_rows Inst.obj_eqb_plain Inst.obj_eqb_rows Inst.run_plain Inst.run_rows.
